@@ -85,6 +85,12 @@ def option_items(tier):
         # a holiday inserted before the ones the run had, then "the absence steps" deleted: the stored list names a worked step by then; whatever is deleted is deleted at every level
         for ab, ins in (([3], [1]), ([2], [0]), ([1, 4], [2]), ([2], [1, 2])):
             out.append((sp, dict(o, absence=ab, post_insert=ins, post_remove="after-insert")))
+    # runs stopped at step k and continued in a new project read from the JSON written at the stop; continued with the states kept and the logs started afresh
+    for sp, o in base[:: (7 if tier == "quick" else 2)]:
+        for k in (1, 2, 3):
+            out.append((sp, dict(o, resume_from=k, resume_via_json=True)))
+            if not o.get("absence") and not o.get("res_absence"):
+                out.append((sp, dict(o, resume_from=k, restart_flags=[False, True])))
     # the project calendar handed over as floats or numpy integers of the same values
     for sp, o in base[:: (7 if tier == "quick" else 2)]:
         for ab in ([1, 2], [0, 3], [2]):
